@@ -8,7 +8,7 @@ IO-DISCIPLINE  every call of Context::input/output in a back end handles `None` 
 LIM-BACKEDGE   in limited mode every cycle of interpreted control flow passes the budget gate
                (`if budget == 0 { return not-finished } budget -= 1` or the threaded-code `limit` op).
 LIM-GUARD      the budget is consulted and 'not finished' produced only under LIMITED/limited.
-LIM-CHARGE     every emit_limit charge is a small constant, or is guarded by a branch on the loop condition.
+LIM-CHARGE     which budget charges build_threaded_code puts in front of which op (evaluated with scripted emitters).
 """
 from common import *
 from rusteval import *
@@ -784,8 +784,9 @@ def run_lim(res, ast, with_jit=True):
              "trampoline test", floor=8, what="budget constructs")
     res.rule("LIM-GUARD", "the budget field is read or written, and 'not finished' is produced, only under LIMITED/limited "
              "(or inside the limit op / limit template that are only emitted under it)", floor=6, what="budget uses")
-    res.rule("LIM-CHARGE", "every emit_limit charge is the constant 1, or is guarded by a branch on the loop condition "
-             "emitted just before it", floor=2, what="emit_limit call sites")
+    res.rule("LIM-CHARGE", "bcint::build_threaded_code evaluated on one-instruction programs with the emitters scripted: under `limited` every branch is preceded "
+             "by exactly one charge of 1, a stationary scan by the whole budget behind a guard branch on the scan's own cell that lands on the scan, "
+             "nothing else is charged; without `limited` nothing is", floor=10, what="instruction class x mode scenarios")
     res.files.update([INPLACE, IRINT, BCMOD, OPS])
     # ---- in-place
     try:
@@ -1023,44 +1024,88 @@ def run_lim(res, ast, with_jit=True):
                   "instruction pointer otherwise: " + "; ".join(bad[:3]))
     except (Missing, IndexError, KeyError, TooComplex) as m:
         res.missing("LIM-BACKEDGE", Missing(str(m)))
-    # ---- LIM-CHARGE
+    # ---- LIM-CHARGE: build_threaded_code evaluated on one-instruction bytecode programs, the emitters scripted (lib/receval.py): which budget
+    # charges are put in front of which op, and what guards the unbounded one
     try:
         f = ast.fn(BCMOD, "build_threaded_code", contains="BcInterpreter")
-        calls = [c for c in walk_t(f["node"]["body"], "Call") if path_name(c["func"]) == "emit_limit"]
-        par = parents(f["node"])
-        for i, c in enumerate(calls):
-            cost = c["args"][1]
-            w = where(BCMOD, c, "build_threaded_code")
-            key = f"{BCMOD}|build_threaded_code|emit_limit|{ast.src1(BCMOD, cost)}"
-            if int_lit(cost) is not None and int_lit(cost) <= 16:
-                res.ok("LIM-CHARGE", key, w, "small constant")
-                continue
-            # must be preceded in the same block by emit(.., Instr::BrZ(cond, _), ..) and followed by adjust_branch
-            blk = None
-            cur = c
-            while id(cur) in par:
-                cur, k = par[id(cur)]
-                if cur["t"] == "Block":
-                    blk = cur
-                    break
-            good = False
-            if blk is not None:
-                names = []
-                for s in blk["stmts"]:
-                    for x in walk_t(s, "Call"):
-                        n = path_name(x["func"])
-                        if n == "emit" and any(path_name(strip_paren(y.get("func", {}))) == "Instr::BrZ" for y in walk_t(x, "Call")):
-                            names.append("guard")
-                        elif n == "emit_limit":
-                            names.append("limit")
-                        elif n == "adjust_branch":
-                            names.append("adjust")
-                good = names == ["guard", "limit", "adjust"]
-            res.check(good, "LIM-CHARGE", key, w,
-                      f"charge `{ast.src1(BCMOD, cost)}` is not guarded: it must be preceded by a BrZ on the loop condition that skips it "
-                      "(otherwise a loop that is never entered exhausts the budget)")
-        if not calls:
-            res.bad("LIM-CHARGE", f"{BCMOD}|build_threaded_code|none", where(BCMOD, f["node"], "build_threaded_code"), "no emit_limit call found")
+        import receval, itereval
+        from receval import Rec
+        from rusteval import Env as _Env, ReturnEx as _Ret, Unanalysable as _Un, Reached as _Re, UNIT as _UNIT
+        I = lambda n, *a_: itereval.Ctor("Instr::" + n, list(a_))
+        ps_ = [p_["pat"]["name"] for p_ in f["node"]["sig"]["inputs"] if p_["t"] == "Arg" and p_["pat"]["t"] == "PIdent"]
+        BIG = (1 << 64) - 1
+
+        def build(inst, limited):
+            events = []
+
+            def emit(it, insts, ins, safe):
+                insts.append(("op", ins))
+                return _UNIT
+
+            def emit_limit(it, insts, cost):
+                insts.append(("limit", cost))
+                return _UNIT
+
+            def emit_return(it, insts):
+                insts.append(("return",))
+                return _UNIT
+
+            def adjust(it, sl, off):
+                events.append((sl[0] if sl else None, off))
+                return _UNIT
+            me = Rec(bytecode=Rec(insts=[inst], temps=2, min_accessed=0, max_accessed=0))
+            it = receval.RecInterp(ast, BCMOD, me, scripted={"emit": emit, "emit_limit": emit_limit, "emit_return": emit_return, "adjust_branch": adjust})
+            env_ = _Env()
+            if len(ps_) != 2:
+                raise _Un("build_threaded_code(&self, limited, safe): unexpected parameters")
+            env_.bind(ps_[0], limited)
+            env_.bind(ps_[1], True)
+            try:
+                out = it.exec_block(f["node"]["body"], env_)
+            except _Ret as r_:
+                out = r_.value
+            return out, events
+        w = where(BCMOD, f["node"], "build_threaded_code")
+        for tag, inst in (("stationary scan", I("Scan", 7, 0)), ("moving scan", I("Scan", 7, 2)), ("forward branch", I("BrZ", 7, 0)), ("backward branch", I("BrNZ", 7, 0)),
+                          ("plain op", I("Out", 7))):
+            for limited in (True, False):
+                probs = []
+                try:
+                    code, adj = build(inst, limited)
+                    if not isinstance(code, list):
+                        raise _Un("no code vector is returned")
+                    ops = [i_ for i_, x_ in enumerate(code) if x_[0] == "op" and x_[1] is inst]
+                    lims = [(i_, x_[1]) for i_, x_ in enumerate(code) if x_[0] == "limit"]
+                    if len(ops) != 1:
+                        probs.append(f"the instruction is emitted {len(ops)} times")
+                    elif not limited:
+                        if lims:
+                            probs.append("budget charges are emitted for an unlimited run")
+                    elif tag in ("forward branch", "backward branch"):
+                        if not (len(lims) == 1 and lims[0] == (ops[0] - 1, 1)):
+                            probs.append(f"a branch must be preceded by exactly one charge of 1; found charges {[c_ for _, c_ in lims]} at distance {[ops[0] - i_ for i_, _ in lims]}")
+                    elif tag in ("moving scan", "plain op"):
+                        if lims:
+                            probs.append(f"charges {[c_ for _, c_ in lims]} in front of an instruction that always terminates: the budget would end a run that is not a loop")
+                    else:
+                        # stationary scan: `[c] != 0` means it never ends: the whole budget is charged, but only if the scan is entered
+                        guards = [(i_, x_[1]) for i_, x_ in enumerate(code[:ops[0]]) if x_[0] == "op" and isinstance(x_[1], itereval.Ctor) and x_[1].name.endswith("::BrZ")]
+                        if not (len(lims) == 1 and isinstance(lims[0][1], int) and lims[0][1] >= (1 << 32)):
+                            probs.append(f"a stationary scan that is entered never ends: the remaining budget must be charged in front of it; found charges {[c_ for _, c_ in lims]}")
+                        elif len(guards) != 1 or not guards[0][0] < lims[0][0] < ops[0]:
+                            probs.append("the unbounded charge must sit between a guard branch and the scan (a scan that is not entered must not exhaust the budget)")
+                        else:
+                            gi, g = guards[0]
+                            if g.fields[0] != 7:
+                                probs.append(f"the guard tests cell {g.fields[0]!r}, the scan loops on cell 7: the charge is skipped or taken for the wrong cell")
+                            hit = [off for first, off in adj if first is code[gi]]
+                            if len(hit) != 1 or gi + hit[0] != ops[0]:
+                                probs.append(f"the guard branch must be adjusted to land on the scan (op {ops[0]}); it is at {gi} and adjusted by {hit}")
+                except (_Un, _Re, KeyError, TypeError, IndexError, AttributeError) as u_:
+                    probs.append(f"cannot be analysed (fail closed): {u_}")
+                res.evaluations += 1
+                res.check(not probs, "LIM-CHARGE", f"{BCMOD}|build_threaded_code|{tag}|{'limited' if limited else 'unlimited'}", w,
+                          f"{tag}, {'limited' if limited else 'unlimited'}: " + "; ".join(probs[:2]))
     except Missing as m:
         res.missing("LIM-CHARGE", m)
     # ---- LIM-GUARD: every budget use is under LIMITED/limited, or inside limit()/emit_limit_check()
